@@ -30,9 +30,9 @@ Record case := mkCase {
      history 0 = block scanner created on a fresh thread, 1 = converted from a Scanner that scanned a file,
      2 = fresh block scanner after another scanner scanned a file on this thread;
      notion 0 = filesize, 1 = uintN readers, 2 = hash functions, 3 = module fields, 4 = math on data *)
-  c_whole : list (N * N * bool) }.
-
-Definition slice (f : list N) (a b : N) : list N := firstn (N.to_nat (b - a)) (skipn (N.to_nat a) f).
+  c_whole : list (N * N * bool);
+  (* rules `$a at n or ...`: (n, the literal, did the rule match?, the matches reported for $a) *)
+  c_anchored : list (N * list N * bool * list rmatch) }.
 
 Definition mtch_eqb (a b : mtch) : bool :=
   (m_start a =? m_start b) && (m_len a =? m_len b) && (snd a =? snd b).
@@ -75,7 +75,15 @@ Definition whole_model (h notion : N) : bool :=
   | _ => false     (* readers of the scanned data find none in block mode (ScanContext::scanned_data) *)
   end.
 
+(* what verify_anchored_patterns (GENERATED anchor rule) finds for an anchored literal *)
+Definition anchored_k_ok (k : case) (a : N * list N * bool * list rmatch) : bool :=
+  let '(n, lit, matched, res) := a in
+  negb matched ||
+  (let obs := map rm_m res in
+   list_eqb mtch_eqb obs (anchored_scan keep_new (c_file k) n lit (c_blocks k))).
+
 Definition check_case (k : case) : bool :=
+  forallb (anchored_k_ok k) (c_anchored k) &&
   forallb (fun w => let '(h, notion, defined) := w in Bool.eqb defined (whole_model h notion)) (c_whole k) &&
   Nat.eqb (length (c_blocks k)) (length (c_per_block k)) && within_ok k &&
   forallb (fun p =>
@@ -115,7 +123,20 @@ Definition derived_ok (k : case) (d : N * dkind * bool) : bool :=
     | DCountGe n => n <=? N.of_nat (length ms)
     end.
 
+(* a pattern anchored at absolute offset n is reported exactly when the
+   literal is at n inside a delivered block, and nowhere else *)
+Definition anchored_s_ok (k : case) (a : N * list N * bool * list rmatch) : bool :=
+  let '(n, lit, matched, res) := a in
+  negb matched ||
+  (let len := N.of_nat (length lit) in
+   let present := existsb (fun b => (fst b <=? n) && (n + len <=? fst b + snd b)) (c_blocks k)
+                  && bytes_eqb (slice (c_file k) n (n + len)) lit in
+   if present
+   then match res with [r] => mtch_eqb (rm_m r) (n, len, 0) && data_ok k r && ctx_ok k r | _ => false end
+   else match res with [] => true | _ => false end).
+
 Definition spec_case (k : case) : bool :=
+  forallb (anchored_s_ok k) (c_anchored k) &&
   forallb (fun p =>
     let res := nth p (c_block_res k) [] in
     let sh := shifted_of k p in
